@@ -111,20 +111,38 @@ def r62(F):
     sb, ft, tt = util.bool_switches(w, last[1]["dest"]["l"])[0]
     ok = util.must_pass(w, ft, errs, exits=cfg.exits(w))
     r.inst("write:bad-version", w.where(sb), ok, "version outside {1.0, 1.1} -> Err" if ok else "an unknown XML version is accepted")
-    # name && text
-    cs = [(b, t) for b, t in wn.calls() if callee(t).endswith("Option::is_some")]
-    need(len(cs) >= 2, "name.is_some() && text.is_some() not found")
+    # name && text: decided on the values, not on the spelling of the test.  After the field loop `name` and `text` hold
+    # what the fields said; with both set no path may reach a successful return (whatever the order of the fields was)
+    nl, tl = wn.locals_named("name"), wn.locals_named("text")
+    need(nl and tl, "write_node: locals `name` / `text` not found")
+    def opt_local(cands):
+        c = [l for l in cands if wn.local_ty(l).startswith("core::option::Option")]
+        need(len(c) == 1, "write_node: the Option local for name/text is ambiguous")
+        return c[0]
+    nl, tl = opt_local(nl), opt_local(tl)
+    loops = cfg.natural_loops(wn)
+    # the field loop: the one in which `name` is assigned
+    floop = [(h, body) for h, body in loops.items() if any(b in body and pl["l"] == nl and not pl["p"] for b, j, pl, rv, m in wn.assigns())]
+    need(len(floop) == 1, "write_node: the loop over the node's fields was not found")
+    h, body = floop[0]
+    exits_ = sorted({x for b in body for x in cfg.succs(wn)[b] if x not in body and wn.term(x)["k"] != "unreachable"})
     errs_n = _errs(wn)
-    both = None
-    for b, t in cs:
-        for sb, ft, tt in util.bool_switches(wn, t["dest"]["l"]):
-            for b2, t2 in cs:
-                if b2 != b and cfg.dominates(wn, tt, b2):
-                    for sb2, ft2, tt2 in util.bool_switches(wn, t2["dest"]["l"]):
-                        both = (sb2, tt2)
-    need(both, "conjunction name && text not recognised")
-    ok = util.must_pass(wn, both[1], errs_n, exits=cfg.exits(wn))
-    r.inst("write_node:name-and-text", wn.where(both[0]), ok, "name and text together -> Err" if ok else "a node with both name and text is accepted")
+    oks_n = {b for b, j, pl, rv, m in wn.assigns() if pl["l"] == 0 and not pl["p"] and rv["k"] == "agg" and rv.get("variant") == "Ok"}
+    # exits that are error propagation (`?`) are not the normal end of the loop
+    normal_exits = [x for x in exits_ if not (cfg.reachable(wn, x) <= (cfg.reachable(wn, x) - oks_n)) or (cfg.reachable(wn, x) & oks_n)]
+    need(normal_exits, "write_node: no normal exit of the field loop")
+    def ok_reachable(nv, tv):
+        out = set()
+        for x in normal_exits:
+            out |= cfg.reachable_ps(wn, x, init={nl: nv, tl: tv}.items())
+        return bool(out & oks_n)
+    sane = ok_reachable("Some", "None") and ok_reachable("None", "Some")
+    need(sane, "write_node: the path analysis finds no successful return even for a node with only a name / only a text")
+    both = ok_reachable("Some", "Some")
+    r.inst("write_node:name-and-text", wn.where(h), not both,
+           "with both name and text set after the field loop every path ends in Err" if not both else
+           "a node whose fields set both name and text can still be written (the test, if any, runs while the fields are being read and "
+           "depends on their order): `{text=\"x\", name=\"y\"}` becomes <y></y>x")
     for g, want in (("get_str_val", "Str"), ("get_tuple_val", "Tuple"), ("get_list_val", "List")):
         fn = F.fn(X + g)
         oks = {b for b, j, pl, rv, m in fn.assigns() if pl["l"] == 0 and not pl["p"] and rv["k"] == "agg" and rv.get("variant") == "Ok"}
@@ -224,4 +242,25 @@ def r63(F):
     return r
 
 
-RULES = [r61, r69, r62, r90, r63]
+VERBATIM = ("::deref", "::as_ref", "::borrow", "::as_str", "::clone", "::as_bytes", "::to_string", "::to_owned", "::into")
+
+
+def r69v(F):
+    r = RuleResult("R69v", "strings reach the XML writer verbatim",
+                   "get_str_val hands out the payload of Val::Str unchanged (only deref / as_ref / borrow style conversions on the way): it "
+                   "feeds element names as well as attribute values and text content, where leading and trailing white space is content",
+                   floor=1)
+    fn = F.fn(X + "get_str_val")
+    o = Origins(fn)
+    for b, j, pl, rv, m in fn.assigns():
+        if pl["l"] == 0 and not pl["p"] and rv["k"] == "agg" and rv.get("variant") == "Ok":
+            cs = sorted(calls_in(o.at(rv["ops"][0], b)))
+            extra = [c for c in cs if not c.endswith(VERBATIM)]
+            r.inst("get_str_val:payload", fn.where(b), not extra,
+                   "the string is returned as it is" if not extra else
+                   "get_str_val passes the string through %s: attribute values and text content lose characters "
+                   "(`title=\"  padded \"` is written as `padded`)" % ", ".join(x.split("::")[-1] for x in extra))
+    return r
+
+
+RULES = [r61, r69, r62, r90, r63, r69v]
